@@ -38,6 +38,9 @@ Fixpoint part_point (p : centroid -> bool) (cs : list centroid) : nat :=
   | c :: r => if p c then S (part_point p r) else 0%nat
   end.
 
+(* f64::min for non-NaN arguments *)
+Definition fmin (a b : Q) : Q := if Qltb b a then b else a.
+
 (* ---------------- TDigestView::rank ---------------- *)
 Definition rank_interior (v : view) (x : Q) : outcome Q :=
   let cs := v_cs v in
@@ -74,16 +77,20 @@ Definition rank (v : view) (x : Q) : outcome (option Q) :=
     (* left tail *)
     if Qltb x (c_mean first) then
       if Qltb 0 (c_mean first - v_min v) then
-        Ok (Some (if Qeq_bool x (v_min v) then (1#2) / T
-                  else (1 + ((x - v_min v) / (c_mean first - v_min v)) * (c_w first / 2 - 1)) / T))
+        let half_weight := c_w first / 2 in
+        let at_min := fmin half_weight 1 in
+        Ok (Some (if Qeq_bool x (v_min v) then at_min / 2 / T
+                  else (at_min + ((x - v_min v) / (c_mean first - v_min v)) * (half_weight - at_min)) / T))
       else Ok (Some 0)
     else
     (* right tail *)
     let last := nthc cs (length cs - 1) in
     if Qltb (c_mean last) x then
       if Qltb 0 (v_max v - c_mean last) then
-        Ok (Some (if Qeq_bool x (v_max v) then 1 - (1#2) / T
-                  else 1 - ((1 + ((v_max v - x) / (v_max v - c_mean last)) * (c_w last / 2 - 1)) / T)))
+        let half_weight := c_w last / 2 in
+        let at_max := fmin half_weight 1 in
+        Ok (Some (if Qeq_bool x (v_max v) then 1 - at_max / 2 / T
+                  else 1 - ((at_max + ((v_max v - x) / (v_max v - c_mean last)) * (half_weight - at_max)) / T)))
       else Ok (Some 1)
     else
     obind (rank_interior v x) (fun r => Ok (Some r))
@@ -236,7 +243,7 @@ Definition adopt (d : td) (added : Z) (out : list centroid) : td :=
   let mx := match out with [] => td_max d | _ => omax (td_max d) (c_mean (nthc out (length out - 1))) end in
   mkTd (td_k d) (negb (td_rev d)) mn mx out (td_cw d + added)%Z [].
 
-(* update: the value is finite (NaN / infinities are filtered by the driver);
+(* update of a finite value (the NaN / infinity filter: td_update_with, at the end of this file);
    [pre] is the digest after the compress this update may trigger (None when the buffer is not full) *)
 Definition td_needs_compress_on_update (d : td) : bool :=
   (Z.of_nat (length (td_buf d)) =? buf_limit (td_k d))%Z.
@@ -376,3 +383,13 @@ Definition td_compress_with (d : td) (out : list centroid) : td :=
 Definition td_merge_with (d o : td) (out : list centroid) : td :=
   if td_is_empty o then d
   else adopt (td_merge_minmax d o) (Z.of_nat (length (td_buf d)) + td_total o)%Z out.
+
+(* TDigestMut::update(value) as a whole.  [x = None] stands for NaN / +-inf, which update ignores
+   (`if value.is_nan() || value.is_infinite() { return; }`); otherwise a full buffer is compressed
+   first ([out] = the result of that pass, unused when the buffer has room) and the value is pushed.
+   Model/TDigestBridge.v: td_update_bits feeds it the bit pattern of the crate's f64 argument. *)
+Definition td_update_with (d : td) (x : option Q) (out : list centroid) : td :=
+  match x with
+  | None => d
+  | Some v => td_push (if td_needs_compress_on_update d then td_compress_with d out else d) v
+  end.
